@@ -348,6 +348,15 @@ def hostile(thorough):
                2 ** 63, 2 ** 64 - 1, 2047, 2048):
         out.append(('vmdk', 'vmdk descriptor of %d sectors' % dn,
                     images.vmdk(desc_num=dn, length=big, fill=b'a')))
+    # combinations of two features: the footer flag and a huge descriptor
+    for dn in (8192, 2 ** 32 - 1, 2 ** 64 - 1):
+        out.append(('vmdk', 'vmdk with footer flag, descriptor of %d sectors'
+                    % dn, images.vmdk(desc_num=dn, gd=images.GD_AT_END,
+                                      length=big, fill=b'a',
+                                      footer=images.vmdk_footer(
+                                          desc_num=dn))))
+        out.append(('vmdk', 'vmdk version 3, descriptor of %d sectors' % dn,
+                    images.vmdk(desc_num=dn, ver=3, length=big, fill=b'a')))
     out.append(('vmdk', 'pure text 3MiB', b'some text line\n' * (big // 15)))
     out.append(('vmdk', 'zeros 3MiB', b'\x00' * big))
     import struct
